@@ -489,7 +489,8 @@ func raceClassify(s *raceSide, rootKind map[string]string) {
 	const mod = "github.com/markusressel/fan2go/internal"
 	for i := range s.Frames {
 		f := &s.Frames[i]
-		if strings.HasPrefix(f.Func, mod) && strings.Contains(f.File, "/internal/") &&
+		// (<autogenerated>: the compiler's pointer wrapper of a value-receiver method, which copies the struct)
+		if strings.HasPrefix(f.Func, mod) && (strings.Contains(f.File, "/internal/") || f.File == "<autogenerated>") &&
 			!strings.Contains(filepath.Base(f.File), "verif_") {
 			if s.Site == nil {
 				s.Site = f
@@ -712,11 +713,14 @@ func raceChild(ctx *Ctx) {
 	cfg.Sensors = []configuration.SensorConfig{
 		{ID: "s_hw", HwMon: &configuration.HwMonSensorConfig{Platform: "fake", Index: 1}},
 		{ID: "s_file", File: &configuration.FileSensorConfig{Path: p("temp2")}},
+		{ID: "s_cmd", Cmd: &configuration.CmdSensorConfig{Exec: "/bin/echo", Args: []string{"47000"}}}, // root-owned, succeeds
 	}
 	cfg.Curves = []configuration.CurveConfig{
 		{ID: "c_lin", Linear: &configuration.LinearCurveConfig{Sensor: "s_hw", Min: 30, Max: 80}},
 		{ID: "c_steps", Linear: &configuration.LinearCurveConfig{Sensor: "s_file", Steps: map[int]float64{30: 10, 50: 120, 80: 255}}},
 		{ID: "c_pid", PID: &configuration.PidCurveConfig{Sensor: "s_hw", SetPoint: 50, P: -0.05, I: -0.005, D: -0.001}},
+		{ID: "c_lin_cmd", Linear: &configuration.LinearCurveConfig{Sensor: "s_cmd", Min: 20, Max: 90}},
+		{ID: "c_pid_cmd", PID: &configuration.PidCurveConfig{Sensor: "s_cmd", SetPoint: 45, P: -0.05, I: -0.005, D: -0.001}},
 		{ID: "c_fn", Function: &configuration.FunctionCurveConfig{Type: configuration.FunctionMaximum, Curves: []string{"c_lin", "c_steps"}}},
 	}
 	two, five := 2, 5
@@ -755,8 +759,8 @@ func raceChild(ctx *Ctx) {
 		hw(3, "f_hw3", "c_lin", false, 1500, direct(nil)),  // direct, no limit
 		hw(4, "f_hw4", "c_lin", false, 800, direct(&five)), // direct, limited
 		file("f_file1", "c_fn", direct(nil)),               // direct, no limit
-		file("f_file2", "c_steps", direct(&two)),           // direct, limited
-		file("f_file3", "c_fn", &configuration.ControlAlgorithmConfig{Pid: &configuration.PidControlAlgorithmConfig{P: 0.3, I: 0.02, D: 0.005}}),
+		file("f_file2", "c_lin_cmd", direct(&two)),         // direct, limited
+		file("f_file3", "c_pid_cmd", &configuration.ControlAlgorithmConfig{Pid: &configuration.PidControlAlgorithmConfig{P: 0.3, I: 0.02, D: 0.005}}),
 		{ID: "f_cmd", Curve: "c_lin", PwmMap: &racePwmIdentity, ControlLoop: &configuration.ControlLoopConfig{P: 0.3, I: 0.02, D: 0.005}, //nolint:all
 			Cmd: &configuration.CmdFanConfig{
 				SetPwm: &configuration.ExecConfig{Exec: "/bin/true", Args: []string{"%pwm%"}},
